@@ -1070,7 +1070,7 @@ def main():
                     json.dump({'property': pid, 'failed_obligation': 'bounded stand-in %s for the assumed contract: %s' % (x['name'], x['assumed_contract']),
                                'obligation_clause': x['assumed_contract'], 'function': x['name'], 'file': 'replay/src/bin/%s.rs' % x['bin'],
                                'verifier': 'bounded execution of the real function (mechanically extracted) against an independent oracle',
-                               'counterexample': text, 'replay_cmd': 'cd /verif && python3 tools/extract.py && cd replay && cargo run --offline -q --release --bin %s' % x['bin'],
+                               'counterexample': text, 'replay_cmd': 'cd /verif && python3 tools/extract.py && cd replay && cargo run --offline -q --release --bin %s%s' % (x['bin'], (' -- ' + ' '.join(x['args'][tier])) if x.get('args') else ''),
                                'verifier_output': [{'message': text}]}, f, indent=1)
                 print('VIOLATION property=%s replay=%s stand-in=%s (concrete failing input found)' % (pid, rpath, x['name']))
                 print('    ' + text.replace('\n', '\n    '))
